@@ -16,14 +16,14 @@ Proof. exact classify_ok. Qed.
 (* the same for declared annotations: forward references at the leaves resolve (through the module namespace; a
    reference to a class defined inside a function or nested in a class through the diagram's classes ns) into the
    supported grammar, to the class they name *)
-Theorem C17_classify_declared : forall p ns t d df, wf_ann t = true -> leaf_ok p t = true -> locals_in ns t = true ->
+Theorem C17_classify_declared : forall p ns t d df, wf_ann t = true -> leaf_ok p t = true -> locals_res p ns t ->
   exists rt, resolve p ns (fun n => n) t = Ok rt /\
     kinds_of {| resolved_type := rt; has_default := d; has_default_factory := df |} = Ok (spec_kind rt) /\
     forall c, about rt c = about t c.
 Proof. exact classify_declared. Qed.
 
 (* for every well-formed program (any declaration order Python admits, forward references anywhere -- also to
-   classes the declaring module imports under `if TYPE_CHECKING:` only --, single and multiple inheritance of any depth) and every list of distinct dataclasses of it: construction succeeds, the
+   classes the declaring module imports under `if TYPE_CHECKING:` only --, single and multiple inheritance of any depth, classes of different modules sharing a __name__) and every list of distinct dataclasses of it: construction succeeds, the
    nodes are the given classes in the given order, no edge occurs twice and an edge is present exactly when the
    Spec demands it (inheritance: direct base, both in the diagram; association: a public field declared by the
    class or an ancestor whose annotation, seen through Optional / container / Type[...] and forward references,
@@ -89,14 +89,15 @@ Theorem C17_regression_two_unresolved :
      = Ok (mk_graph [2; 3] [mk_edge EInh 2 3 1; mk_edge EAssoc 2 3 5; mk_edge EAssoc 3 3 5]).
 Proof. exact two_unresolved_regression. Qed.
 
-(* outside the fragment (open finding C17-d): a class whose module needs the retry (a TYPE_CHECKING-only name) and a
-   diagram with two classes of the same __name__ from different modules: the class's reference to ITS OWN module's X
-   goes to the namesake listed last (first list order), and to the right class in the other order *)
-Theorem C17_refuted_namesake_retry :
-  build namesake_prog [2; 3; 4; 5] = Ok (mk_graph [2; 3; 4; 5] [mk_edge EAssoc 2 4 6; mk_edge EAssoc 2 5 7])
-  /\ g_edges (spec_graph namesake_prog [2; 3; 4; 5]) = [mk_edge EAssoc 2 3 6; mk_edge EAssoc 2 5 7]
+(* regression (C17-d, repaired by cfad88b): a class whose module needs the retry (a TYPE_CHECKING-only name) in a diagram
+   with two classes of the same __name__ from different modules.  The retry as it was re-bound the class's reference to ITS
+   OWN module's X to the namesake listed last; the program is inside the fragment now and both list orders give A.p -> X *)
+Theorem C17_regression_namesake_retry :
+  resolve namesake_prog [2; 3; 4; 5] (sh_of_old namesake_prog [2; 3; 4; 5] 2) (Optional (Fwd 3)) = Ok (Optional (Cls 4))
+  /\ wf_prog namesake_prog = true /\ wf_classes namesake_prog [2; 3; 4; 5] = true
+  /\ build namesake_prog [2; 3; 4; 5] = Ok (mk_graph [2; 3; 4; 5] [mk_edge EAssoc 2 3 6; mk_edge EAssoc 2 5 7])
   /\ build namesake_prog [2; 4; 3; 5] = Ok (mk_graph [2; 4; 3; 5] [mk_edge EAssoc 2 3 6; mk_edge EAssoc 2 5 7]).
-Proof. exact namesake_refuted. Qed.
+Proof. exact namesake_regression. Qed.
 
 Example C17_nonvacuous :
   wf_ty (Optional (Cls 2)) = true /\ wf_ty (OptionalL (Cls 2)) = true /\ wf_ty (Cont KList (Enum 3)) = true /\ wf_ty (TypeOf (Cls 2)) = true /\
@@ -120,4 +121,4 @@ Print Assumptions C17_refuted_subdiagram_before_fix.
 Print Assumptions C17_refuted_shared_memo.
 Print Assumptions C17_regression_union_none_first.
 Print Assumptions C17_regression_two_unresolved.
-Print Assumptions C17_refuted_namesake_retry.
+Print Assumptions C17_regression_namesake_retry.
